@@ -129,7 +129,7 @@ def frame(ty, payload, rng, tform=None, lform=None, lendelta=0):
 
 class C02(Prop):
     id = "C02"
-    modules = ["H3.Props.C02", "H3.Lemmas.GenAgreeFrame"]
+    modules = ["H3.Props.C02", "H3.Lemmas.GenAgreeFrame", "H3.Lemmas.GenAgreeReq", "H3.Lemmas.GenAgreeCtl"]
     engines = ["frame", "fs"]
     design_ref = "DESIGN.md section 7, C02 and Appendix B.1"
     level_text = ("Lean theorems (unbounded, all proved in full) over models of Frame::decode, FrameDecoder::decode, "
@@ -141,11 +141,21 @@ class C02(Prop):
                   "consumed, consumed offsets are segment boundaries, hence independent of chunking; after FIN no call is Pending and "
                   "truncation (also inside DATA, also at a chunk boundary) ends the reader loop with UnexpectedEnd, never a clean end; "
                   "the reference automaton agrees with the RFC oracle `observe`, so the reader loop's observations are those of "
-                  "`observe w ending` for all chunkings")
+                  "`observe w ending` for all chunkings; at the two callers (request stream, control stream) Malformed and "
+                  "UnexpectedEnd become the connection error H3_FRAME_ERROR, by the arms of got_frame_error / "
+                  "handle_frame_stream_error_on_request_stream / poll_control as re-read on this run "
+                  "(C02_frame_error_code_at_callers); the strict SETTINGS reading R-02s (`observeS`) differs from `observe` only on "
+                  "SETTINGS payloads that end inside an entry; the driver's fast evaluation is the model "
+                  "(C02_driver_runs_the_model)")
     level_note = ("trusted: Lean kernel + 3 standard axioms; hand model tied to the code by running real FrameStream over a scripted "
                   "RecvStream on the same scripts (all short strings over an 18-byte alphabet x all cut patterns x endings, "
                   "frame sequences with every type/length form, mutations, random call sequences); Cursor/BufList read-through is "
-                  "covered by the cuts; SETTINGS payload details belong to C13; WebTransport 0x41 header belongs to C19")
+                  "covered by the cuts; SETTINGS payload details belong to C13; WebTransport 0x41 header belongs to C19; "
+                  "answer sequences that the property does not fix uniquely (arbitrary call sequences, reset streams, DATA cut by "
+                  "FIN) are judged by the chunk-blind Lean predicate H3.Spec.Framing.judgeLoop/judgeCalls (not a theorem about the "
+                  "model: a run-time oracle on the implementation's and the model's answers); OPEN FINDING kept out of the default "
+                  "run: a SETTINGS payload that ends inside an entry is reported as H3_SETTINGS_ERROR where RFC 9114 7.1 says "
+                  "H3_FRAME_ERROR (reading R-02s; VERIF_C02_STRICT_SETTINGS=1 bin/check C02 shows it)")
     rule = ("cases: `frame dec` and `fs loop`/`fs calls` lines (with VERIF_C02_STRICT_SETTINGS=1 the same cases as `decS`/`loopS`/"
             "`callsS`, judged under the strict SETTINGS reading R-02s). (1) all strings of length<=3 (quick) / <=4 (thorough) over "
             "an 18-byte alphabet x all 2^(n-1) cut patterns x {fin, open}; (2) grammar-built sequences of 1-4 short frames (every "
@@ -166,7 +176,8 @@ class C02(Prop):
             "H3.Spec.Framing.judgeLoop/judgeCalls) and carries its verdict; non-trivial = the implementation emitted at least "
             "one frame, data piece or error (not only `P`/`N`/bad-op)")
     trusted = ["bytes::Bytes split_to/advance semantics",
-               "translator decision table H3.Gen.FrameDispatch (Frame::decode: frame type -> payload parser / Frame variant, the HTTP/2-reserved types, unknown = skipped) and H3.Gen.FrameErrCodes (arms of FrameDecoder::decode, got_frame_error), re-read from h3/src/proto/frame.rs, h3/src/frame.rs, h3/src/error/internal_error.rs on this run (any other shape of these functions is refused); tied to the model by H3.Lemmas.GenAgreeFrame (decode_agrees: H3.Frame.decode = the decoder written over the generated table, for every byte string), rebuilt on this run"]
+               "translator decision table H3.Gen.FrameDispatch (Frame::decode: frame type -> payload parser / Frame variant, the HTTP/2-reserved types, unknown = skipped) and H3.Gen.FrameErrCodes (arms of FrameDecoder::decode, got_frame_error), re-read from h3/src/proto/frame.rs, h3/src/frame.rs, h3/src/error/internal_error.rs on this run (any other shape of these functions is refused); tied to the model by H3.Lemmas.GenAgreeFrame (decode_agrees: H3.Frame.decode = the decoder written over the generated table, for every byte string), rebuilt on this run",
+               "translator tables H3.Gen.FrameErrCodes.code / requestStreamUnexpectedEnd and H3.Gen.CtlArms.onTruncated / onProto (the error codes at the two callers), tied to the models H3.ReqRecv.fsErr / H3.Control.classify by H3.Lemmas.GenAgreeReq (frameErrCode_agrees, fsErr_agrees) and H3.Lemmas.GenAgreeCtl (protoCode_agrees, classify_truncated, classify_proto)"]
     assumptions = ["transport chunks are non-empty (R-T)", "for RESET endings only the prefix claim is made (App. B.1)"]
 
     def cases(self, tier, rng):
